@@ -2,6 +2,7 @@ package main
 
 import (
 	"encoding/json"
+	"fmt"
 	"runtime"
 	"sync"
 	"time"
@@ -28,18 +29,26 @@ type meterRecord struct {
 }
 
 type recWriter struct {
-	mu      sync.Mutex
-	recs    []meterRecord
-	marker  int
-	t0      time.Time
+	mu     sync.Mutex
+	recs   []meterRecord
+	marker int
+	t0     time.Time
+	// failEvery > 0: every failEvery-th write (and the very first one) reports an error, like a full or closed stderr
+	failEvery int
 }
 
 func (w *recWriter) Write(p []byte) (int, error) {
 	w.mu.Lock()
 	defer w.mu.Unlock()
-	w.recs = append(w.recs, meterRecord{Seq: len(w.recs), T: int64(time.Since(w.t0)), Data: append([]byte(nil), p...), Marker: w.marker})
+	n := len(w.recs)
+	w.recs = append(w.recs, meterRecord{Seq: n, T: int64(time.Since(w.t0)), Data: append([]byte(nil), p...), Marker: w.marker})
+	if w.failEvery > 0 && n%w.failEvery == 0 {
+		return 0, errWriteFailed
+	}
 	return len(p), nil
 }
+
+var errWriteFailed = fmt.Errorf("injected write error")
 
 func (w *recWriter) setMarker(m int) {
 	w.mu.Lock()
@@ -71,7 +80,7 @@ func meterCase(id interface{}, c rawCase) map[string]interface{} {
 	}
 	period := time.Duration(periodUs) * time.Microsecond
 	g0 := runtime.NumGoroutine()
-	w := &recWriter{t0: time.Now(), marker: 0}
+	w := &recWriter{t0: time.Now(), marker: 0, failEvery: getInt(c, "fail_every")}
 	pm := meter.NewProgressMeter(w, period)
 	type phaseEv struct {
 		TStart int64 `json:"t_start"`
